@@ -45,6 +45,10 @@ enum Op {
     /// probe on a rebuilt copy: 600000 ledgers pass without a call; balances, freezes, pause flag
     /// and supply must read the same
     IdleProbe,
+    /// probe on a rebuilt copy: A transfers 1 token to a MUXED destination (an account address with a mux
+    /// id, verified like the others); if it goes through, the compliance contract must have been told once,
+    /// with the plain destination address
+    MuxedProbe,
 }
 
 #[derive(Clone, Debug, PartialEq, Eq, Hash)]
@@ -120,13 +124,13 @@ impl Rwa {
             Op::EnvFlags { transfer, create } => (i.comp.clone(), "set_flags", (*transfer, *create).into_val(e)),
             Op::EnvHooksFail { b } => (i.comp.clone(), "set_hooks_fail", (*b,).into_val(e)),
             Op::EnvRecovery { old, new } => (i.ver.clone(), "set_recovery", (u(*old), new.map(u)).into_val(e)),
-            Op::IdleProbe => unreachable!(),
+            Op::IdleProbe | Op::MuxedProbe => unreachable!(),
         }
     }
 
     /// Execute; returns (accepted, return value, compliance notifications of this call).
     fn exec(&self, i: &Inst, op: &Op) -> (bool, Option<Val>, Vec<LogRec>) {
-        if matches!(op, Op::IdleProbe) {
+        if matches!(op, Op::IdleProbe | Op::MuxedProbe) {
             return (false, None, vec![]);
         }
         let (c, f, args) = self.call(i, op);
@@ -249,7 +253,7 @@ impl World for Rwa {
     }
 
     fn ops(&self, _i: &Inst, m: &St, _d: usize) -> Vec<Op> {
-        let mut v = vec![Op::IdleProbe];
+        let mut v = vec![Op::IdleProbe, Op::MuxedProbe];
         let dedup = |xs: Vec<i128>| {
             let mut out: Vec<i128> = vec![];
             for x in xs {
@@ -373,6 +377,7 @@ impl World for Rwa {
             Op::Unpause => "unpause",
             Op::EnvVerified { .. } | Op::EnvFlags { .. } | Op::EnvRecovery { .. } | Op::EnvHooksFail { .. } => "env",
             Op::IdleProbe => "idle-probe",
+            Op::MuxedProbe => "transfer-to-muxed-destination",
         }
         .to_string()
     }
@@ -389,6 +394,30 @@ impl World for Rwa {
             o.allow = m.allow; // allowances may have expired meanwhile (C02's subject)
             ensure!(o == *m, "state-survives-idle", "600000 ledgers without any call changed the token's state:\n     before {:?}\n     after  {:?}", m, o);
             cx.stats.count("idle-probes", 1);
+            return Ok(false);
+        }
+        if matches!(op, Op::MuxedProbe) {
+            use soroban_sdk::testutils::MuxedAddress as _;
+            let copy = cx.rebuild();
+            let e = &copy.e;
+            let mux = soroban_sdk::MuxedAddress::generate(e);
+            let dest = mux.address();
+            call_mocked(e, &copy.ver, "set_verified", (dest.clone(), true).into_val(e)).map_err(|x| Violation::new("machinery", format!("set_verified: {x:?}")))?;
+            let ok = call_mocked(e, &copy.tok, "transfer", (copy.u[0].clone(), mux, 1i128).into_val(e)).is_ok();
+            if ok {
+                let v = view(e, &copy.comp, "log", SVec::new(e)).expect("log");
+                let notes: SVec<Note> = SVec::try_from_val(e, &v).expect("notes");
+                let hits: Vec<Note> = notes.iter().filter(|n| n.to.as_ref() == Some(&dest)).collect();
+                ensure!(
+                    hits.len() == 1 && hits[0].amount == 1 && hits[0].from.as_ref() == Some(&copy.u[0]) && hits[0].token == copy.tok && hits[0].what.to_string() == "transfer",
+                    "compliance-notification",
+                    "a transfer of 1 from A to a muxed destination succeeded, but the compliance contract holds {} notification(s) naming the destination (expected exactly one transfer record with the plain address, amount 1)",
+                    hits.len()
+                );
+                let b = i128_of(e, view(e, &copy.tok, "balance", (dest.clone(),).into_val(e)).map_err(|x| Violation::new("getter", format!("{x:?}")))?);
+                ensure!(b == 1, "lockstep", "balance of the muxed destination's address is {} after receiving 1", b);
+                cx.stats.count("transfers to a muxed destination accepted", 1);
+            }
             return Ok(false);
         }
         let pre = m.clone();
@@ -513,7 +542,7 @@ impl World for Rwa {
             }
             Op::EnvRecovery { old, new } => x.recovery[*old] = *new,
             Op::EnvHooksFail { b } => x.hooks_fail = *b,
-            Op::IdleProbe => unreachable!(),
+            Op::IdleProbe | Op::MuxedProbe => unreachable!(),
         }
         // a movement the compliance contract could not be told about must not have happened
         if pre.hooks_fail && !want_log.is_empty() {
@@ -1053,7 +1082,7 @@ fn main() {
                     &["mint", "transfer", "transfer_from", "forced_transfer", "burn", "recover_balance", "set_address_frozen", "freeze_partial", "unfreeze_partial", "pause", "unpause", "env", "compliance.add_module", "compliance.remove_module"],
                     &["mint", "transfer", "transfer_from", "forced_transfer", "burn", "recover_balance", "freeze_partial", "unfreeze_partial", "pause", "unpause"],
                 );
-                rep.require_counter(&["idle-probes", "#movement refused with exactly one of two registered modules denying", "#movement refused with an unverified party (real identity verifier)"]);
+                rep.require_counter(&["idle-probes", "transfers to a muxed destination accepted", "#movement refused with exactly one of two registered modules denying", "#movement refused with an unverified party (real identity verifier)"]);
             }
         },
     );
